@@ -220,6 +220,7 @@ class Program:
                 root = fn.d.get("root")
                 if root in self.fns:
                     self.fns[root].closures.append(fn)
+        resolve_self_ctors(self)
         self.inlined_consts = inline_literal_consts(self)
         self.field_groups = flatten_field_groups(self)
         self.field_renames = canonicalise_fields(self)
@@ -433,6 +434,24 @@ FIELD_ROLES = {
 }
 
 
+def resolve_self_ctors(prog):
+    """`Self(..)` inside an impl resolves to the impl (`<T as From<U>>` in a trait impl), not to the tuple struct it
+    constructs; the call's type is the struct — name the constructor after it, so that `Self(x)` and `T(x)` are the same
+    thing wherever they are written"""
+    n = 0
+    for f in prog.fns.values():
+        if f.body is None:
+            continue
+        for x in walk(f.body):
+            if x.get("k") == "Call" and isinstance(x.get("f"), dict) and x["f"].get("k") == "Path" and x["f"].get("res") == "SelfCtor":
+                ty = (x.get("ty") or "").split("<")[0]
+                if ty in prog.adts and x["f"].get("def") != ty:
+                    x["f"]["def"] = ty
+                    x["f"].pop("inst", None)
+                    n += 1
+    return n
+
+
 def inline_literal_consts(prog):
     """Module-level `const NAME: T = <string / integer / bool literal>;` of the library crates: every use of NAME in a body
     is replaced by the literal, so that `ustr("UniqueId")` and `ustr(UNIQUE_ID_PROP)` are the same program to the rules
@@ -517,10 +536,25 @@ def flatten_field_groups(prog):
             old_mir, = [f"{adt}.{f['name']}"]
             for fn in prog.fns.values():
                 if fn.body is not None:
+                    # a local that only names the group (`let table = &mut self.table;`): `table.ids` is `self.ids`
+                    alias = {}
+                    for st in walk_lets(fn.body):
+                        if st["pat"].get("k") == "Binding" and isinstance(st.get("init"), dict):
+                            i0 = strip(st["init"])
+                            while i0.get("k") in ("AddrOf", "Unary") and isinstance(i0.get("e"), dict):
+                                i0 = strip(i0["e"])
+                            if i0.get("k") == "Field" and i0.get("f") == f["name"] and ((i0.get("ty") or "").split("<")[0] == gname):
+                                alias[st["pat"]["lid"]] = i0["e"]
                     stack = [fn.body]
                     while stack:
                         n = stack.pop()
                         if isinstance(n, dict):
+                            if alias and n.get("k") == "Field" and isinstance(n.get("e"), dict):
+                                a0 = n["e"]
+                                while a0.get("k") in ("DropTemps", "Use", "Type", "Unary", "AddrOf") and isinstance(a0.get("e"), dict):
+                                    a0 = a0["e"]
+                                if a0.get("k") == "Path" and a0.get("res") == "local" and a0.get("lid") in alias:
+                                    n["e"] = alias[a0["lid"]]
                             if n.get("k") == "Field" and isinstance(n.get("e"), dict):
                                 inner = n["e"]
                                 while inner.get("k") in ("DropTemps", "Use", "Type") and isinstance(inner.get("e"), dict):
